@@ -238,8 +238,62 @@ def _outevent_by_interpretation(ctx) -> bool:
     return True
 
 
+def _ids_by_interpretation(ctx) -> bool:
+    """parse_scope_name interpreted (dznverif.scenario, E7) on a scope_name element whose `ids` are: absent, no list, an empty
+    list, valid identifiers, a list with an invalid identifier / a non-string.  An empty list and a value that is no list are
+    refused with DznJsonError, an invalid identifier with NamespaceIdsTypeError (or DznJsonError), valid lists give a
+    ScopeName with exactly those identifiers.  False when not interpretable (the dominance rule decides then)."""
+    from ..scenario import Interp, Obj, Raised, Undecided
+    run, prog = ctx.run, ctx.prog
+    ps = prog.try_func('json_ast', 'parse_scope_name')
+    err = prog.classes.get('dznpy.json_ast.DznJsonError')
+    ide = prog.classes.get('dznpy.scoping.NamespaceIdsTypeError')
+    if ps is None or err is None or ide is None:
+        return False
+    bad: List[str] = []
+    cases = [('no ids key', NotImplemented, 'json'), ('ids null', None, 'json'), ('ids a string', 'a', 'json'), ('ids an object', {'a': 1}, 'json'),
+             ('an empty list', [], 'json'), ('one identifier', ['a'], ['a']), ('three identifiers', ['a', 'b2', '_c'], ['a', 'b2', '_c']),
+             ('an invalid identifier', ['a', '1b'], 'id'), ('an identifier with a dot', ['a.b'], 'id'), ('an empty identifier', ['a', ''], 'id'),
+             ('a number among the identifiers', ['a', 5], 'id'), ('null among the identifiers', [None], 'id')]
+    try:
+        for label, ids, want in cases:
+            el = {'<class>': 'scope_name'}
+            if ids is not NotImplemented:
+                el['ids'] = ids
+            try:
+                res = Interp(prog).call_function(ps, [el], {})
+                raised = None
+            except Raised as exc:
+                res, raised = None, exc.name
+            is_json = raised is not None and raised in prog.classes and prog.is_subclass(raised, err.fq)
+            is_id = raised is not None and raised in prog.classes and prog.is_subclass(raised, ide.fq)
+            if want == 'json':
+                if not is_json:
+                    bad.append(f'{label}: ' + ('accepted' if raised is None else f'raises {raised.split(".")[-1]}') + ', DznJsonError expected')
+            elif want == 'id':
+                if not (is_id or is_json):
+                    bad.append(f'{label}: ' + ('accepted' if raised is None else f'raises {raised.split(".")[-1]}') +
+                               ', the identifier-validation error expected')
+            else:
+                v = res.fields.get('value') if isinstance(res, Obj) else None
+                items = v.fields.get('items') if isinstance(v, Obj) else None
+                if raised is not None or items != want:
+                    bad.append(f'{label}: ' + (f'raises {raised.split(".")[-1]}' if raised else f'parsed as {items!r}'))
+    except Undecided as exc:
+        run.remark(f'C15: parse_scope_name could not be interpreted ({exc}); the dominance rule decides')
+        return False
+    for k, what in enumerate(('empty / missing / mistyped identifier lists are refused with DznJsonError',
+                              'invalid identifiers are refused by the identifier validation',
+                              'valid identifier lists are kept as they are')):
+        run.add('C15.ids', ps.module.name, ps.qualname, f'{len(cases)} scope_name elements ({k + 1})', not bad,
+                what + ' (parse_scope_name interpreted, E7)' if not bad else '; '.join(bad[:3]))
+    return True
+
+
 def _ids_rule(ctx, abs_):
     run, prog = ctx.run, ctx.prog
+    if _ids_by_interpretation(ctx):
+        return
     jmod = prog.module('json_ast')
     sn = prog.cls('ast', 'ScopeName')
     nids = prog.cls('scoping', 'NamespaceIds')
